@@ -42,5 +42,5 @@ func init() {
 	const common = "executions = all action sequences up to the stated depth (S1, state matching) and all schedules within the stated number of deviations from fair seeds followed by a fair suffix (S3); distinct_nontrivial = distinct final cluster states of executions in which a block index was delivered by two nodes holding different event sets at that moment. Oracle after every step: "
 	std("C02", []string{"C01", "C02"}, common+"per node the commit callbacks have consecutive indexes (from 0, or anchor+1), strictly increasing round-received; Node.GetBlock(i) for every delivered i equals the delivered body + state hash + receipts; signatures only grow", 50)
 	std("C04", []string{"C01", "C04"}, common+"for every processed round the frame's event list is compared with the harness's own record of every event's parents and payload: each parent is committed strictly earlier, no event twice, block transactions = concatenation of the events' payloads in frame order, frame = exactly the events whose private round-received is that round", 50)
-	std("C10", []string{"C01", "C10"}, common+"GetAllValidatorSets()/GetValidatorSet(r) of every node equal a reference replay (genesis set, accepted receipts of its delivered blocks applied in order, effective at round-received+6); entries never change; nodes agree; each block's peers hash is the hash of the set at its round-received; every witness's creator is in its round's set", 50)
+	std("C10", []string{"C01", "C10sig", "C10"}, common+"GetAllValidatorSets()/GetValidatorSet(r) of every node equal a reference replay (genesis set, accepted receipts of its delivered blocks applied in order, effective at round-received+6); entries never change; nodes agree; each block's peers hash is the hash of the set at its round-received; every witness's creator is in its round's set; every block signature a node has recorded is by a member of the set of the block's round-received", 50)
 }
